@@ -67,3 +67,13 @@ Fixpoint dec_N (a : N) (x : str) : N :=
 Definition arg_N (x : str) : N := dec_N 0 x.
 Definition arg_nat (x : str) : nat := N.to_nat (arg_N x).
 Definition arg_bool (x : str) : bool := match x with c :: _ => (N_of_ascii c =? 49)%N | [] => false end.
+
+(* Adler-32 of a byte string (as two numbers), so that large member data can be compared cheaply *)
+Fixpoint adler_go (a b : Z) (x : str) : Z * Z :=
+  match x with
+  | [] => (a, b)
+  | c :: r => let a' := ((a + Z.of_N (N_of_ascii c)) mod 65521)%Z in adler_go a' ((b + a') mod 65521)%Z r
+  end.
+Definition show_data (x : str) : str :=
+  let '(a, b) := adler_go 1 0 x in
+  unwords [show_nat (List.length x); show_Z a; show_Z b].
